@@ -174,6 +174,48 @@ def batchPointsOrdered (cfg : JCfg) (arrivals : List (Nat × JMsg)) : Prop :=
 instance (cfg : JCfg) (arrivals : List (Nat × JMsg)) : Decidable (batchPointsOrdered cfg arrivals) := by
   unfold batchPointsOrdered; infer_instance
 
+/-! ### join.on(dimensions): a specific-group point is joined with the general-group point of its time -/
+
+/-- An arrival at a join with `on()`: parent, message, whether the message is grouped by MORE dimensions than
+`on()` ("specific"), and its general group (the group by the `on()` dimensions only). -/
+structure OnArrival where
+  src : Nat
+  msg : JMsg
+  specific : Bool
+  general : String
+deriving DecidableEq, Repr
+
+/-- Everything a join with `on()` has to emit: one joined point per specific point, built from it and – if
+there is one – the general point of another parent with the same general group and the same rounded time
+(which takes the specific point's group tags and dimensions); a specific point without partner is emitted
+alone under an outer join; general points alone yield nothing. -/
+def joinOnOutput (cfg : JCfg) (arr : List OnArrival) : List JOut :=
+  arr.filterMap (fun a =>
+    if !a.specific then none else
+    let t := goRound cfg.tol a.msg.time
+    let partner := arr.find? (fun b => !b.specific && b.src != a.src && b.general == a.general && goRound cfg.tol b.msg.time == t)
+    let values := (List.range cfg.parents).map (fun i =>
+      if i = a.src then some a.msg else
+      match partner with
+      | some b => if i = b.src then
+          some { b.msg with tags := groupTags a.msg, dims := a.msg.dims, byName := a.msg.byName, grp := a.msg.grp }
+        else none
+      | none => none)
+    joinedPoint cfg { time := t, values := values })
+
+/-- The domain on which the `on()` clause is claimed: two parents, each consistently specific or general, at
+most one general point per general group and rounded time, and per parent and general group the rounded
+times never go back. -/
+def onDomain (cfg : JCfg) (arr : List OnArrival) : Prop :=
+  cfg.parents = 2 ∧
+  (∀ a ∈ arr, ∀ b ∈ arr, a.src = b.src → a.specific = b.specific) ∧
+  ((arr.filter (fun a => !a.specific)).map (fun a => (a.general, goRound cfg.tol a.msg.time))).Nodup ∧
+  (∀ i, i < cfg.parents → ∀ g ∈ distinct (arr.map (·.general)),
+    nondecreasing ((arr.filter (fun a => a.src == i && a.general == g)).map (fun a => goRound cfg.tol a.msg.time)))
+instance (cfg : JCfg) (arr : List OnArrival) : Decidable (onDomain cfg arr) := by
+  unfold onDomain
+  exact @instDecidableAnd _ _ inferInstance (@instDecidableAnd _ _ inferInstance (@instDecidableAnd _ _ inferInstance (Nat.decidableBallLT _ _)))
+
 /-- Hypothesis of the join clauses: within every group, every parent's (rounded) times never go back.
 `steps` lists what each parent sent in arrival order: (parent, group, time) of points AND barriers. -/
 def joinOrdered (cfg : JCfg) (steps : List (Nat × String × Int)) : Prop :=
